@@ -466,10 +466,13 @@ func checkMatBytes(c matBytesCase) *vk.Failure {
 	}
 	if res.Outcome != vk.Returned {
 		key := "panics"
-		if strings.Contains(res.Text, "makeslice") {
-			key = "panics-makeslice" // the allocation size was computed with wrapping arithmetic
+		if strings.Contains(res.Text, "makeslice") && reason == "too-big" {
+			key = "panics-makeslice" // non-negative dimensions whose size computation wraps
 		}
 		return vk.Failf(key, "%s: %v: %s", what, res.Outcome, res.Text)
+	}
+	if err == nil && reason == "negative" {
+		return vk.Failf("accepts-negative-dims", "%s: accepted with a nil error", what)
 	}
 	if err == nil {
 		// internal consistency of whatever was accepted
@@ -496,7 +499,11 @@ func checkMatBytes(c matBytesCase) *vk.Failure {
 				ok = need.IsInt64() && need.Int64() <= int64(len(data))
 			}
 			if !ok {
-				return vk.Failf("accepted-inconsistent", "%s: accepted with a nil error, but the result has Dims %dx%d over %d elements (RawMatrix Rows=%d Cols=%d Stride=%d)", what, r, cc, len(data), raw.Rows, raw.Cols, raw.Stride)
+				key := "accepted-inconsistent"
+				if reason == "too-big" {
+					key = "accepts-wrapped-dims" // non-negative dimensions whose product wraps in int64
+				}
+				return vk.Failf(key, "%s: accepted with a nil error, but the result has Dims %dx%d over %d elements (RawMatrix Rows=%d Cols=%d Stride=%d)", what, r, cc, len(data), raw.Rows, raw.Cols, raw.Stride)
 			}
 		}
 		if r <= 0 || cc <= 0 {
@@ -617,6 +624,9 @@ func drawMatBytes(t *rapid.T) matBytesCase {
 		if rows < 0 {
 			rows = int64(1)<<62 + small
 			cols = 4
+		}
+		if k >= 2 && rapid.IntRange(0, 3).Draw(t, "negative") == 0 {
+			rows = small - int64(1)<<uint(64-k) // negative, and rows * 2^k wraps to small * 2^k
 		}
 		if rapid.Bool().Draw(t, "swap") {
 			rows, cols = cols, rows
